@@ -11,7 +11,8 @@ Verdict(cs) ==
   LET rs == cs.runs
       oks == { k \in 1..Len(rs) : rs[k].outcome = "ok" }
       refused == { k \in 1..Len(rs) : rs[k].outcome # "ok" } IN
-  IF \E k \in 1..Len(rs) : rs[k].outcome \notin {"ok", "grammar", "undefined-or-duplicate", "too-large"} THEN
+  \* an internal exception under every layout is property C15's subject; under some layouts only, it is a layout dependence
+  IF oks = {} /\ \E k \in 1..Len(rs) : rs[k].outcome \notin {"ok", "grammar", "undefined-or-duplicate", "too-large"} THEN
        [ok |-> TRUE, clause |-> "unjudged", key |-> "internal-exception-is-C15", detail |-> ""]
   ELSE IF oks # {} /\ refused # {} THEN
        LET k == CHOOSE x \in refused : \A y \in refused : x <= y IN
